@@ -889,3 +889,145 @@ Lemma default_config_inv ttl h :
              V.gen.Consts.DEFAULT_MAX_PROVIDERS_PER_KEY ttl in
   Inv c (final c h).
 Proof. intros c. apply final_inv. subst c. cbn [max_per_key]. vm_compute. discriminate. Qed.
+
+(* ---------- one entry per provider ---------- *)
+(* The distance of a provider to a key is a function d of (key, provider): the harness computes
+   it from the SHA-256 hashes. When every operation of a history carries the distance d
+   prescribes, every stored entry does, and since a list is strictly sorted by distance, an
+   injective d (distinct peers have distinct hashes) gives: no provider is stored twice. *)
+Section OnePerProvider.
+Variable d : N -> N -> N.
+
+Definition op_consistent (o : op) : Prop :=
+  match o with
+  | OPutProvider k pid dist _ => dist = d k pid
+  | OPutLocal k dist => dist = d k LOCAL_ID
+  | ORemoveLocal k dist => dist = d k LOCAL_ID
+  | _ => True
+  end.
+
+Definition entry_ok (k : N) (p : prov) : Prop := p_dist p = d k (p_id p).
+Definition Cons (s : store) : Prop :=
+  Forall (fun kp => Forall (entry_ok (fst kp)) (snd kp)) (pkeys s).
+
+Lemma cons_replace_pk k ps l :
+  Forall (entry_ok k) ps ->
+  Forall (fun kp => Forall (entry_ok (fst kp)) (snd kp)) l ->
+  (forall k', In k' (pk_keys l) -> True) ->
+  Forall (fun kp => Forall (entry_ok (fst kp)) (snd kp)) (replace_pk k ps l).
+Proof.
+  intros Hps H _. induction H as [|[k' ps'] t Hh Ht IH]; cbn [replace_pk]; [constructor|].
+  destruct (k' =? k) eqn:E.
+  - constructor; [|assumption]. cbn [fst snd]. assert (k' = k) by lia. now subst.
+  - constructor; assumption.
+Qed.
+
+Lemma find_pk_cons k l ps :
+  Forall (fun kp => Forall (entry_ok (fst kp)) (snd kp)) l -> find_pk k l = Some ps -> Forall (entry_ok k) ps.
+Proof.
+  intros H Hf. apply find_pk_in in Hf. rewrite Forall_forall in H. exact (H _ Hf).
+Qed.
+
+Lemma cons_step c s o now :
+  1 <= max_per_key c -> Inv c s -> Cons s -> op_consistent o -> Cons (fst (step c s o now)).
+Proof.
+  intros Hm I C Ho. unfold Cons in *. destruct o; cbn [step op_consistent] in *.
+  - unfold get. destruct (find_rec k (recs s)); [destruct (rec_expired r now)|]; exact C.
+  - cbn [fst]. unfold put. destruct (max_size c <=? r_len r); [exact C|].
+    destruct (find_rec (r_key r) (recs s)) as [old|].
+    + destruct (r_exp old), (r_exp r); try exact C. destruct (n0 <? n); exact C.
+    + destruct (max_records c <=? N.of_nat (length (recs s))); exact C.
+  - unfold get_providers. destruct (find_pk k (pkeys s)) as [ps|] eqn:Ef; [|exact C].
+    pose proof (find_pk_cons _ _ _ C Ef) as Hps.
+    destruct (filter _ ps) as [|p ps'] eqn:Efl; cbn [fst pkeys].
+    + now apply remove_pk_forall.
+    + apply cons_replace_pk; [|exact C|trivial]. rewrite <- Efl. now apply forall_filter.
+  - unfold put_provider. destruct (find_pk k (pkeys s)) as [ps|] eqn:Ef.
+    + pose proof (find_pk_cons _ _ _ C Ef) as Hps.
+      pose proof (find_pk_in _ _ _ Ef) as Hin. destruct I as [H1 H2 H3 H4 H5 H6 H7 H8 H9].
+      pose proof (proj1 (Forall_forall _ _) H6 _ Hin) as L6.
+      pose proof (proj1 (Forall_forall _ _) H8 _ Hin) as L8. cbn [snd] in *.
+      destruct (put_list _ _ ps) as [ps'|] eqn:Ep; cbn [fst pkeys]; [|exact C].
+      replace (max_per_key c) with (N.of_nat (N.to_nat (max_per_key c))) in Ep by lia.
+      apply put_list_inv in Ep; [|assumption|lia|lia]. destruct Ep as (_ & _ & _ & S4).
+      apply cons_replace_pk; [|exact C|trivial]. apply Forall_forall. intros y Hy.
+      destruct (S4 _ Hy) as [->|Hy']; [unfold entry_ok; cbn [p_dist p_id]; exact Ho|].
+      rewrite Forall_forall in Hps. auto.
+    + destruct (N.of_nat (length (pkeys s)) <? max_keys c); cbn [fst pkeys]; [|exact C].
+      apply Forall_app; split; [exact C|]. constructor; [|constructor]. cbn [fst snd].
+      constructor; [|constructor]. unfold entry_ok. cbn [p_dist p_id]. exact Ho.
+  - unfold put_local_provider.
+    assert (K : Forall (fun kp => Forall (entry_ok (fst kp)) (snd kp))
+                  (pkeys (fst (put_provider c s k LOCAL_ID dist 0 now)))).
+    { unfold put_provider. destruct (find_pk k (pkeys s)) as [ps|] eqn:Ef.
+      + pose proof (find_pk_cons _ _ _ C Ef) as Hps.
+        pose proof (find_pk_in _ _ _ Ef) as Hin. destruct I as [H1 H2 H3 H4 H5 H6 H7 H8 H9].
+        pose proof (proj1 (Forall_forall _ _) H6 _ Hin) as L6.
+        pose proof (proj1 (Forall_forall _ _) H8 _ Hin) as L8. cbn [snd] in *.
+        destruct (put_list _ _ ps) as [ps'|] eqn:Ep; cbn [fst pkeys]; [|exact C].
+        replace (max_per_key c) with (N.of_nat (N.to_nat (max_per_key c))) in Ep by lia.
+        apply put_list_inv in Ep; [|assumption|lia|lia]. destruct Ep as (_ & _ & _ & S4).
+        apply cons_replace_pk; [|exact C|trivial]. apply Forall_forall. intros y Hy.
+        destruct (S4 _ Hy) as [->|Hy']; [unfold entry_ok; cbn [p_dist p_id]; exact Ho|].
+        rewrite Forall_forall in Hps. auto.
+      + destruct (N.of_nat (length (pkeys s)) <? max_keys c); cbn [fst pkeys]; [|exact C].
+        apply Forall_app; split; [exact C|]. constructor; [|constructor]. cbn [fst snd].
+        constructor; [|constructor]. unfold entry_ok. cbn [p_dist p_id]. exact Ho. }
+    destruct (put_provider c s k LOCAL_ID dist 0 now) as [s1 ok]. cbn [fst] in K.
+    destruct ok; cbn [fst pkeys]; exact K.
+  - unfold remove_local_provider. destruct (negb (existsb (N.eqb k) (locals s))); [exact C|].
+    destruct (find_pk k (pkeys s)) as [ps|] eqn:Ef; cbn [fst pkeys]; [|exact C].
+    pose proof (find_pk_cons _ _ _ C Ef) as Hps.
+    destruct (search dist ps) as [i|i]; cbn [fst pkeys]; [|exact C].
+    destruct (remove_nth i ps) as [|p ps'] eqn:Er; cbn [fst pkeys].
+    + now apply remove_pk_forall.
+    + apply cons_replace_pk; [|exact C|trivial]. rewrite <- Er. now apply remove_nth_forall.
+Qed.
+
+Fixpoint history_consistent (h : list (op * N)) : Prop :=
+  match h with [] => True | (o, _) :: t => op_consistent o /\ history_consistent t end.
+
+Lemma cons_run c h : 1 <= max_per_key c -> forall s,
+  Inv c s -> Cons s -> history_consistent h -> Cons (fst (run c s h)).
+Proof.
+  intros Hm. induction h as [|[o now] t IH]; intros s I C Hh; cbn [run fst]; [exact C|].
+  destruct Hh as [Ho Ht].
+  pose proof (cons_step c s o now Hm I C Ho) as C1. pose proof (step_inv c Hm s o now I) as I1.
+  destruct (step c s o now) as [s1 r]. cbn [fst] in *.
+  specialize (IH s1 I1 C1 Ht). destruct (run c s1 t) as [s2 rs]. exact IH.
+Qed.
+
+Lemma sorted_nodup_dist l : psorted l -> NoDup (map p_dist l).
+Proof.
+  induction 1 as [|h t Hs IH Hall]; cbn [map]; constructor; [|assumption].
+  intros Hin. apply in_map_iff in Hin. destruct Hin as (y & Hy & Hyin).
+  rewrite Forall_forall in Hall. specialize (Hall _ Hyin). unfold dist_lt in Hall. lia.
+Qed.
+
+Lemma one_entry_per_provider k l :
+  (forall a b, d k a = d k b -> a = b) -> psorted l -> Forall (entry_ok k) l -> NoDup (map p_id l).
+Proof.
+  intros Hinj Hs Hok. pose proof (sorted_nodup_dist l Hs) as Hnd.
+  induction l as [|h t IH]; cbn [map] in *; [constructor|].
+  inversion Hnd as [|? ? Hn Hd]; subst. inversion Hok as [|? ? Hh Ht]; subst.
+  inversion Hs as [|? ? Hst Hall]; subst.
+  constructor; [|apply IH; assumption].
+  intros Hin. apply Hn. apply in_map_iff in Hin. destruct Hin as (y & Hy & Hyin).
+  apply in_map_iff. exists y. split; [|assumption].
+  rewrite Forall_forall in Ht. specialize (Ht _ Hyin). unfold entry_ok in *. congruence.
+Qed.
+
+Theorem no_provider_twice c h :
+  1 <= max_per_key c -> (forall k a b, d k a = d k b -> a = b) -> history_consistent h ->
+  Forall (fun kp => NoDup (map p_id (snd kp))) (pkeys (final c h)).
+Proof.
+  intros Hm Hinj Hh. unfold final.
+  pose proof (run_inv c Hm h empty_store (inv_empty c Hm)) as I.
+  assert (C : Cons (fst (run c empty_store h))).
+  { apply cons_run; [assumption|now apply inv_empty|constructor|assumption]. }
+  destruct I as [_ _ _ _ _ _ _ H8 _]. unfold Cons in C.
+  apply Forall_forall. intros kp Hkp. rewrite Forall_forall in H8, C.
+  apply (one_entry_per_provider (fst kp)); [apply Hinj | apply H8; assumption | apply C; assumption].
+Qed.
+
+End OnePerProvider.
